@@ -71,7 +71,7 @@ def other_schemas(prop):
 
 
 # properties whose obligations include the generated archetype / world layer
-WORLD_PROPS = ('C01', 'C02', 'C03', 'C04', 'C08', 'C09', 'C12', 'C13', 'C14', 'C17')
+WORLD_PROPS = ('C01', 'C02', 'C03', 'C04', 'C08', 'C09', 'C12', 'C13', 'C14', 'C15', 'C17')
 
 
 # properties whose obligations include the instantiated query templates (the templates unit CONTAINS the world unit)
